@@ -143,16 +143,24 @@ def make_parser(it, ctx, tag='p'):
     return p
 
 
+def window_lookups_arg(arg, w):
+    """is `arg` the window itself or a filtered comprehension over the whole window (the lookup records)?"""
+    if arg is w.events:
+        return True
+    o = getattr(arg, 'origin', None)
+    return isinstance(o, tuple) and o[0] == 'comp' and o[1] is w.events
+
+
 class VnodeContract:
-    """assumed-at-call-site contract of TracesParser.parse_vnodes (proved on the real body in C08):
-    returns the lookups found in its argument, a list of symbolic length n >= 0 of Vnode(ktraces, vnode_id, path)."""
+    """call-site contract of TracesParser.vnode_generator (proved on the real body in C08): yields, in order, one
+    Vnode(records, vnode word, text) per END-bit record of its argument: a sequence of symbolic length n >= 0."""
 
     def __init__(self, it):
         self.it = it
         self.calls = []
 
     def __call__(self, it, func, args, kwargs, node):
-        parser, events = args[0], args[1]
+        events = args[-1]
         ctx = it.ctx
         k = len(self.calls)
         tag = ctx.fresh('lk')
@@ -269,7 +277,8 @@ def explore_decoder(sess, name, handler, render=True, extra_setup=None, window_n
     """all paths of handler(parser, events) followed by str(result)."""
     it = sess.it
     vn = VnodeContract(it)
-    it.contracts['pykdebugparser.traces_parser:TracesParser.parse_vnodes'] = vn
+    # the generator is used through its contract (proved on its body in C08); parse_vnodes / parse_vnode run as real code
+    it.contracts['pykdebugparser.traces_parser:TracesParser.vnode_generator'] = vn
     allh = {}
     if not hasattr(sess, '_tabs'):
         sess._tabs = handler_tables(sess)
@@ -368,7 +377,7 @@ def concretize(s, extra=(), timeout_ms=10000):
     # lookups found in the whole window are materialised as single-record VFS_LOOKUP events after the START
     lk_events = []
     for tag, arg, lst in s.lookups:
-        if arg is not w.events:
+        if not window_lookups_arg(arg, w):
             continue
         n = ev(lst.length)
         for j in range(min(n, 8)):
@@ -378,6 +387,12 @@ def concretize(s, extra=(), timeout_ms=10000):
             import struct
             data = struct.pack('<Q', vid & W64) + ptxt.encode().ljust(24, b'\0')
             lk_events.append({'timestamp': 0, 'data': data.hex(), 'values': [0, 0, 0, 0], 'code_name': 'VFS_LOOKUP', 'qual': 3})
+        # lookup records that do not complete a lookup (a START without its END, e.g. the dump ends mid-lookup)
+        extra = ev(arg.length) - n if isinstance(arg, SymList) and arg is not w.events else 0
+        for j in range(max(0, min(extra, 3))):
+            import struct
+            lk_events.append({'timestamp': 0, 'data': (struct.pack('<Q', 5) + b'/unfinished'.ljust(24, b'\0')).hex(), 'values': [0, 0, 0, 0],
+                              'code_name': 'VFS_LOOKUP', 'qual': 1})
     if L >= 2:
         events = events[:1] + lk_events + events[1:]
     parser = {}
